@@ -24,8 +24,8 @@ META = {
  },
 }
 
-S1a, S1b = "S\ta\t*", "S\tb\t*"
-S2a, S2b = "S\ta\t10\t*", "S\tb\t10\t*"
+S1a, S1b = "S\ta\t*\ta1:i:3", "S\tb\t*"            # (a tag name may end in a digit)
+S2a, S2b = "S\ta\t10\t*", "S\tb\t10\t*\tx9:Z:q"
 L, P, C = "L\ta\t+\tb\t+\t*", "P\tp\ta+,b+\t*", "C\ta\t+\tb\t+\t0\t*"
 E, G, O = "E\te\ta+\tb+\t5\t10$\t0\t5\t*", "G\tg\ta+\tb+\t5\t*", "O\to\ta+ b+"
 X, CM, HN = "X\t1\t2", "#\tcomment", "H\txx:i:1"
